@@ -656,6 +656,73 @@ theorem pendingCommands_spec (t : TrapMap) (hsorted : Sorted t) (s : Nat) :
     (pendingCommands t).filter (fun p => p.1 == s) = owed (get t s) s :=
   pendingCommands_filter t s hsorted
 
+/-! ## An interruptible built-in interrupted by SIGINT -/
+
+/-- ★ `interrupted_builtin_drops_nothing` — an interactive shell runs a built-in that does not handle
+    signals itself (`read` waiting for input, …); the system reports batches of caught signals until
+    one contains SIGINT, which interrupts the built-in (`execute_builtin`).  For every trap set and
+    every sequence of batches: the built-in is interrupted iff some batch contains SIGINT, and
+    afterwards EVERY signal reported up to and including that batch — also the ones reported in the
+    same batch as SIGINT — is pending in the trap set (if it has an entry at all), no other flag
+    changes, and no action, origin or internal disposition changes.  So none of them is dropped:
+    with a command trap `c` the run `(s, c)` is owed, and the next command boundary where no action
+    diverts runs it (`runs_at_next_boundary`). -/
+theorem interrupted_builtin_drops_nothing (t : TrapMap) (hsorted : Sorted t) (batches : List (List Nat)) :
+    (interruptedBuiltin t batches).2 = batches.any (·.contains SIGINT)
+    ∧ (∀ s, pendingAt (interruptedBuiltin t batches).1 s
+          = (((deliveredBatches batches).contains s && (get t s).isSome) || pendingAt t s))
+    ∧ (∀ s, (get (interruptedBuiltin t batches).1 s).map core = (get t s).map core)
+    ∧ (∀ s c, s ≠ 0 → (deliveredBatches batches).contains s = true →
+          actionAt t s = some (.command c) →
+          (pendingCommands (interruptedBuiltin t batches).1).filter (fun p => p.1 == s) = [(s, c)]) := by
+  have hspec := sigintLoop_spec batches []
+  simp only [List.nil_append] at hspec
+  have hp : ∀ s, pendingAt (interruptedBuiltin t batches).1 s
+      = (((deliveredBatches batches).contains s && (get t s).isSome) || pendingAt t s) := by
+    intro s
+    simp only [interruptedBuiltin, hspec.1]
+    exact pendingAt_foldl_catch _ t s
+  have hc : ∀ s, (get (interruptedBuiltin t batches).1 s).map core = (get t s).map core := by
+    intro s
+    simp only [interruptedBuiltin]
+    exact core_foldl_catch _ t s
+  refine ⟨by simp only [interruptedBuiltin]; exact hspec.2, hp, hc, ?_⟩
+  intro s c hs0 hdel hact
+  have hsorted' : Sorted (interruptedBuiltin t batches).1 := by
+    simp only [interruptedBuiltin]; exact sorted_foldl_catch _ t hsorted
+  rw [pendingCommands_filter _ s hsorted']
+  unfold actionAt at hact
+  cases hg : get t s with
+  | none => rw [hg] at hact; simp at hact
+  | some g =>
+    rw [hg] at hact
+    simp only [Option.map_some, Option.some.injEq] at hact
+    have hcs := hc s
+    have hps := hp s
+    rw [hg] at hcs hps
+    cases hg' : get (interruptedBuiltin t batches).1 s with
+    | none => rw [hg'] at hcs; simp at hcs
+    | some g' =>
+      rw [hg'] at hcs
+      simp only [Option.map_some, Option.some.injEq, core, Prod.mk.injEq] at hcs
+      have hact' : g'.current.action = .command c := hcs.1.trans hact
+      have hpend : g'.current.pending = true := by
+        simp only [pendingAt, hg', hdel, Option.isSome_some, Bool.and_self, Bool.true_or] at hps
+        exact hps
+      rw [owed_pending _ s c hs0 g' rfl hact', hpend]
+      rfl
+
+/-- non-vacuity (the shape of the round-4 seed): USR1 (command trap) and SIGINT reported in the
+    same batch; USR1 is pending afterwards and its action runs at the next boundary -/
+example :
+    let t : TrapMap := set (set [] SIGUSR1 { current := { action := .command 1, origin := .user 0 } })
+        SIGINT { current := { action := .default, origin := .inherited }, internal := .catch }
+    let r := interruptedBuiltin t [[SIGUSR1, SIGINT]]
+    r.2 = true ∧ pendingAt r.1 SIGUSR1 = true
+    ∧ (afterCommand (fun _ _ t => ({ exit := 0 }, t)) false (some (.interrupt (some 386))) r.1 386).runs
+        = [(SIGUSR1, 1)] := by
+  decide
+
 /-! ## Shell-level histories: `TrapSet` operations and `trap` commands in any order -/
 
 /-- what a shell does to its trap set: a `TrapSet` operation, or a whole `trap` command -/
